@@ -706,8 +706,30 @@ def run(ctx):
         "(val_op), validated by the correspondence run incl. None/length-mismatch/broadcast cases",
         "values are dyadic (n/1024) so that float arithmetic is exact",
     ]
-    for f in list(ctx.build.glob("cases_*.v")) + list(ctx.build.glob("*.vo")) + list(ctx.build.glob("*.glob")):
-        f.unlink()
+    # concurrent runs of this check (e.g. one against /repo, one against a scratch copy) must not share
+    # generated files: everything of this run lives in build/C04/run-<pid>/
+    import os
+    import shutil
+    import time as _time
+
+    base = ctx.build
+    for old in base.glob("run-*"):
+        try:
+            if _time.time() - old.stat().st_mtime > 3600:
+                shutil.rmtree(old, ignore_errors=True)
+        except OSError:
+            pass
+    ctx.build = base / f"run-{os.getpid()}"
+    ctx.build.mkdir(parents=True, exist_ok=True)
+    try:
+        _run(ctx)
+    finally:
+        if not ctx.violations and all(o["ok"] for o in ctx.obligations):
+            shutil.rmtree(ctx.build, ignore_errors=True)       # kept for inspection otherwise
+        ctx.build = base
+
+
+def _run(ctx):
     # 1. proofs
     ctx.audit_tree(["Model/Basis.v", "Props/C04.v"] + [str(p.relative_to(COQ)) for p in sorted((COQ / "Proofs").glob("Basis*.v"))])
     ctx.prove_static("Props/C04.v", timeout=900)
@@ -790,7 +812,11 @@ def replay(ctx, data):
     if bad:
         return 1
     # no complaint from the Python oracles: evaluate model/spec in Coq on this one case
+    import os
+
     ctx.ensure_static()
+    ctx.build = ctx.build / f"replay-{os.getpid()}"
+    ctx.build.mkdir(parents=True, exist_ok=True)
     problems, n = correspondence(ctx, [case], per_file=1)
     for kind, _, which in problems:
         print("  Coq verdict:", kind if isinstance(which, int) else which)
